@@ -395,8 +395,10 @@ func (c *Client) LastSeq() int64 {
 // Upgrade performs the polling -> websocket upgrade per the protocol:
 // open ws with sid, 2probe, wait 3probe, 5.
 func (c *Client) Upgrade() error {
-	ctx, cancel := context.WithTimeout(context.Background(), 15*time.Second)
+	ctx, cancel := context.WithTimeout(context.Background(), 60*time.Second)
 	defer cancel()
+	// Pause polling first: the in-flight poll still delivers its packets, no new poll is started.
+	close(c.pollStop)
 	conn, _, err := websocket.Dial(ctx, wsURL(c.url("websocket", "")), &websocket.DialOptions{CompressionMode: websocket.CompressionDisabled})
 	if err != nil {
 		return err
@@ -412,11 +414,10 @@ func (c *Client) Upgrade() error {
 	if string(data) != "3probe" {
 		return fmt.Errorf("rawpeer: expected 3probe, got %q", data)
 	}
-	// Stop polling: wait for the pending poll to be released (server sends NOOP).
-	close(c.pollStop)
+	// Wait for the pending poll to be released (the server answers it with a NOOP).
 	select {
 	case <-c.pollDone:
-	case <-time.After(30 * time.Second):
+	case <-time.After(45 * time.Second):
 		return fmt.Errorf("rawpeer: pending poll not released during upgrade")
 	}
 	if err := conn.Write(ctx, websocket.MessageText, []byte("5")); err != nil {
